@@ -50,14 +50,74 @@ type traceCache struct {
 	mu    sync.Mutex
 	calls []setCall
 	log   []setLog
+	// what each job of a concurrent mix was told by the cache (the oracle answers of
+	// Model/AuthConc.v) and what it stored
+	reads map[int]*jobReads
+	// onShared is called when Set hands a job the result of ANOTHER call's fetch
+	onShared func(job int, scheme auth.Scheme, tok string)
+}
+
+type jobReads struct {
+	schemeAsked bool
+	scheme      string // "-" not found, "basic", "bearer", "unknown"
+	tok1        string // raw token of the first GetToken ("" = not found / not asked)
+	tok1Scheme  auth.Scheme
+	tok2        []tokRead
+	sets        []tokRead // Set calls that returned a token
+	fetched     bool      // the job's own fetch function ran
+	setCalls    int
+}
+
+type tokRead struct {
+	scheme auth.Scheme
+	key    string
+	tok    string
+	found  bool
+}
+
+func (t *traceCache) job(ctx context.Context) *jobReads {
+	jb, ok := ctx.Value(jobKey{}).(int)
+	if !ok {
+		return nil
+	}
+	if t.reads == nil {
+		t.reads = map[int]*jobReads{}
+	}
+	if t.reads[jb] == nil {
+		t.reads[jb] = &jobReads{scheme: "-"}
+	}
+	return t.reads[jb]
 }
 
 func (t *traceCache) GetScheme(ctx context.Context, registry string) (auth.Scheme, error) {
-	return t.inner.GetScheme(ctx, registry)
+	sch, err := t.inner.GetScheme(ctx, registry)
+	t.mu.Lock()
+	if r := t.job(ctx); r != nil {
+		r.schemeAsked = true
+		if err == nil {
+			r.scheme = strings.ToLower(sch.String())
+		}
+	}
+	t.mu.Unlock()
+	return sch, err
 }
 
 func (t *traceCache) GetToken(ctx context.Context, registry string, scheme auth.Scheme, key string) (string, error) {
-	return t.inner.GetToken(ctx, registry, scheme, key)
+	tok, err := t.inner.GetToken(ctx, registry, scheme, key)
+	t.mu.Lock()
+	if r := t.job(ctx); r != nil {
+		first := len(r.tok2) == 0 && r.tok1Scheme == 0 && (r.scheme == "basic" || r.scheme == "bearer")
+		if first {
+			r.tok1Scheme = scheme
+			if err == nil {
+				r.tok1 = tok
+			}
+		} else {
+			r.tok2 = append(r.tok2, tokRead{scheme, key, tok, err == nil})
+		}
+	}
+	t.mu.Unlock()
+	return tok, err
 }
 
 func (t *traceCache) add(l setLog) {
@@ -78,7 +138,17 @@ func (t *traceCache) Set(ctx context.Context, registry string, scheme auth.Schem
 	t.calls = append(t.calls, setCall{registry, scheme, key})
 	t.log = append(t.log, setLog{kind: 'n', call: id})
 	t.mu.Unlock()
+	t.mu.Lock()
+	if r := t.job(ctx); r != nil {
+		r.setCalls++
+	}
+	t.mu.Unlock()
 	tok, err := t.inner.Set(ctx, registry, scheme, key, func(ctx context.Context) (string, error) {
+		t.mu.Lock()
+		if r := t.job(ctx); r != nil {
+			r.fetched = true
+		}
+		t.mu.Unlock()
 		inst, ok := auth.VerifInFlight(t.inner, registry, scheme, key)
 		t.add(setLog{kind: 's', call: id, inst: inst, ok: ok})
 		v, e := fetch(ctx)
@@ -96,6 +166,16 @@ func (t *traceCache) Set(ctx context.Context, registry string, scheme auth.Schem
 		t.add(setLog{kind: 'E', call: id, err: err})
 	} else {
 		t.add(setLog{kind: 'R', call: id, val: tok})
+		t.mu.Lock()
+		shared := false
+		if r := t.job(ctx); r != nil {
+			r.sets = append(r.sets, tokRead{scheme, key, tok, true})
+			shared = !r.fetched
+		}
+		t.mu.Unlock()
+		if jb, ok := ctx.Value(jobKey{}).(int); ok && shared && t.onShared != nil {
+			t.onShared(jb, scheme, tok)
+		}
 	}
 	return tok, err
 }
